@@ -42,6 +42,7 @@ var probes = map[string]bool{
 	"ship.ShipConnection.setState":                true,
 	"ship.ShipConnection.setHandshakeTimer":       true,
 	"ship.ShipConnection.handleState":             true,
+	"ship.ShipConnection.CloseConnection":         true,
 }
 
 type edit struct {
